@@ -32,9 +32,9 @@ class Suite:
 
 TERM = {'deadlock', 'livelock'}
 VERDICT = {'unexpected-success', 'unexpected-failure'}
-VALUE = {'wrong-value', 'exception-as-value', 'recurrent-as-value', 'outcome-varies'}
+VALUE = {'wrong-value', 'none-in-value', 'exception-as-value', 'recurrent-as-value', 'outcome-varies'}
 ERR = {'wrong-error', 'escaped-exception', 'escaped-cancelled', 'error-not-identical'}
-KW = {'exception-as-kwarg', 'recurrent-as-kwarg', 'wrong-kwarg-keys', 'wrong-kwarg-value', 'started-before-input-final'}
+KW = {'exception-as-kwarg', 'recurrent-as-kwarg', 'none-as-kwarg', 'wrong-kwarg-keys', 'wrong-kwarg-value', 'started-before-input-final'}
 COUNT = {'dup-exec', 'missing-exec'}
 LAZY = {'forbidden-exec', 'candidate-started-early'}
 LEFT = {'leftover-tasks', 'late-activity', 'unbounded-drain', 'cancel-hang', 'cancel-wrong-exception'}
@@ -51,6 +51,7 @@ def suites(prop: str, tier: str) -> t.List[Suite]:
         return [
             Suite('d0-async', GEN + ['corpus'], ['outcome', 'varies'], 0, ['async'], symptoms=sym),
             Suite('d0-thread', GEN + ['corpus'], ['outcome', 'varies'], 0, ['thread'], symptoms=sym),
+            Suite('composed', ['oneofx'], ['outcome', 'varies'], 0, ['async'] if q else ['async', 'thread'], symptoms=sym),
             Suite('d1', ['corpus', 'rec'] if q else GEN + ['corpus'], ['outcome', 'varies'], 1, ['async', 'thread'] if not q else ['thread'],
                   symptoms=sym, max_nodes=4 if q else 6),
         ] + ([] if q else [Suite('d2', ['corpus', 'plain', 'rec', 'oneof', 'switch'], ['outcome', 'varies'], 2, ['thread'], symptoms=sym, max_nodes=5, limit=20000)])
@@ -58,6 +59,7 @@ def suites(prop: str, tier: str) -> t.List[Suite]:
         return [
             Suite('d0-async', GEN + ['corpus', 'overlap'], ['term'], 0, ['async'], symptoms=TERM),
             Suite('d0-thread', GEN + ['corpus'], ['term'], 0, ['thread'], symptoms=TERM),
+            Suite('composed', ['oneofx'], ['term'], 0, ['async'] if q else ['async', 'thread'], symptoms=TERM, plans='std' if q else 'pairs'),
             Suite('d1', ['corpus'] + ([] if q else GEN), ['term'], 1, ['thread'], symptoms=TERM, max_nodes=5 if q else 6),
             Suite('gated-collab', ['corpus', 'plain'] + ([] if q else ['oneof', 'switch', 'rec']), ['term'], 0, ['async'],
                   collab={'mode': 'gated', 'store': 'rec'}, symptoms=TERM, max_nodes=4 if q else 5),
@@ -71,14 +73,16 @@ def suites(prop: str, tier: str) -> t.List[Suite]:
         return [
             Suite('d0-async', GEN + ['corpus'], ['kwargs'], 0, ['async'], symptoms=KW),
             Suite('d0-thread', GEN + ['corpus'], ['kwargs'], 0, ['thread'], symptoms=KW),
+            Suite('composed', ['oneofx'], ['kwargs'], 0, ['async'] if q else ['async', 'thread'], symptoms=KW),
             Suite('d1', ['corpus', 'rec'] + ([] if q else ['plain', 'oneof', 'switch', 'mix']), ['kwargs'], 1, ['thread'], symptoms=KW, max_nodes=4 if q else 6),
         ] + ([] if q else [Suite('d2', ['corpus', 'rec', 'oneof', 'switch'], ['kwargs'], 2, ['thread'], symptoms=KW, max_nodes=5, limit=20000)])
     if prop == 'C04':
-        sym = COUNT | {'wrong-kwarg-value'}
+        sym = COUNT | {'wrong-kwarg-value', 'none-as-kwarg'}
         return [
             Suite('yield-d0', GEN + ['corpus'], ['counts', 'kwargs'], 0, ['async'], collab={'mode': 'yield'}, symptoms=sym),
             Suite('yield-d1', ['corpus', 'switch', 'oneof'] + ([] if q else ['plain', 'rec', 'mix']), ['counts', 'kwargs'], 1, ['thread'],
                   collab={'mode': 'yield'}, symptoms=sym, max_nodes=5 if q else 6, plans='ok'),
+        ] + ([] if q else [Suite('composed', ['oneofx'], ['counts', 'kwargs'], 0, ['async'], collab={'mode': 'yield'}, symptoms=sym)]) + [
             Suite('gated', ['corpus'] + ([] if q else ['switch', 'oneof', 'plain']), ['counts', 'kwargs'], 0 if q else 1, ['async'],
                   collab={'mode': 'gated'}, symptoms=sym, plans='ok', max_nodes=6 if q else 5, limit=20000),
         ]
@@ -87,6 +91,7 @@ def suites(prop: str, tier: str) -> t.List[Suite]:
         return [
             Suite('d0-async', GEN + ['corpus'], ['outcome'], 0, ['async'], symptoms=sym, plans='pairs'),
             Suite('d0-thread', GEN + ['corpus'], ['outcome'], 0, ['thread'], symptoms=sym, plans='std'),
+            Suite('composed', ['oneofx'], ['outcome'], 0, ['async'] if q else ['async', 'thread'], symptoms=sym, plans='std' if q else 'pairs'),
             Suite('d1', ['corpus', 'oneof'] + ([] if q else ['plain', 'switch', 'rec', 'mix']), ['outcome'], 1, ['thread'], symptoms=sym,
                   plans='pairs', max_nodes=5 if q else 6),
         ] + ([] if q else [Suite('d2', ['corpus', 'oneof', 'plain'], ['outcome'], 2, ['thread'], symptoms=sym, plans='pairs', max_nodes=5, limit=20000)])
@@ -103,6 +108,7 @@ def suites(prop: str, tier: str) -> t.List[Suite]:
         mons = ['term', 'outcome', 'kwargs', 'counts', 'order', 'varies']
         return [
             Suite('d0-async', ['oneof', 'mix', 'corpus'], mons, 0, ['async'], symptoms=sym, plans='pairs'),
+            Suite('composed', ['oneofx'], mons, 0, ['async'] if q else ['async', 'thread'], symptoms=sym, plans='std' if q else 'pairs'),
             Suite('d0-thread', ['oneof', 'corpus'], mons, 0, ['thread'], symptoms=sym, plans='pairs'),
             Suite('d1', ['corpus', 'oneof'], mons, 1, ['thread'], symptoms=sym, plans='std' if q else 'pairs', max_nodes=5 if q else 6),
         ] + ([] if q else [Suite('d2', ['corpus', 'oneof'], mons, 2, ['thread'], symptoms=sym, max_nodes=5, limit=20000)])
@@ -118,6 +124,7 @@ def suites(prop: str, tier: str) -> t.List[Suite]:
         return [
             Suite('early-failure', GEN + ['corpus'], ['left'], 0, ['async'], symptoms=LEFT),
             Suite('early-failure-thread', GEN + ['corpus'], ['left'], 0, ['thread'], symptoms=LEFT),
+            Suite('composed', ['oneofx'], ['left'], 0, ['async'] if q else ['async', 'thread'], symptoms=LEFT),
             Suite('cancel-every-step', ['corpus', 'plain'] + ([] if q else ['oneof', 'switch', 'rec']), ['left', 'cancel'], 0, ['async', 'thread'],
                   symptoms=LEFT, plans='cancel', max_nodes=8 if q else 8),
             Suite('cancel-gated-collab', ['corpus', 'plain'], ['left', 'cancel'], 0, ['async'], collab={'mode': 'gated', 'store': 'rec'},
@@ -128,6 +135,7 @@ def suites(prop: str, tier: str) -> t.List[Suite]:
         return [
             Suite('instant', GEN + ['corpus'], ['events'], 0, ['async'], symptoms=None),
             Suite('yield', GEN + ['corpus'], ['events'], 0, ['thread'], collab={'mode': 'yield', 'two_managers': True}, symptoms=None),
+        ] + ([] if q else [Suite('composed', ['oneofx'], ['events'], 0, ['async'], symptoms=None)]) + [
             Suite('gated', ['corpus', 'plain'] + ([] if q else ['oneof', 'switch', 'rec']), ['events'], 0, ['async'],
                   collab={'mode': 'gated', 'two_managers': not q}, symptoms=None, max_nodes=4, limit=20000),
             Suite('d1', ['corpus'] + ([] if q else ['plain', 'rec', 'oneof']), ['events'], 1, ['thread'], collab={'mode': 'yield'},
@@ -138,6 +146,7 @@ def suites(prop: str, tier: str) -> t.List[Suite]:
         return [
             Suite('once-d0', GEN + ['corpus'], ['saves', 'outcome'], 0, ['async'], collab={'store': 'once'}, symptoms=sym),
             Suite('once-d0-thread', GEN + ['corpus'], ['saves', 'outcome'], 0, ['thread'], collab={'store': 'once'}, symptoms=sym),
+        ] + ([] if q else [Suite('composed', ['oneofx'], ['saves', 'outcome'], 0, ['async'], collab={'store': 'once'}, symptoms=sym)]) + [
             Suite('once-gated-save', ['corpus', 'plain', 'switch'], ['saves', 'outcome'], 0, ['async'],
                   collab={'store': 'once', 'save_mode': 'gated'}, symptoms=sym, plans='ok', max_nodes=5 if q else 6, limit=20000),
             Suite('once-d1', ['corpus', 'switch'] + ([] if q else ['plain', 'oneof', 'rec']), ['saves', 'outcome'], 1, ['thread'],
@@ -174,14 +183,15 @@ def case_plans(spec: dict, suite: Suite, fam: str) -> t.List[dict]:
 
 
 def work(arg: tuple) -> dict:
-    prop, tier, si, fam, spec = arg
+    prop, tier, si, fam, spec = arg[:5]
+    chunk = arg[5] if len(arg) > 5 else (0, 1)
     suite = suites(prop, tier)[si]
     import time as _t
     _t0 = _t.time()
     out = dict(cases=0, executions=0, transitions=0, states=0, capped=0, viol=[], internal=[], outcomes=0, sample=None, cpu=0.0)
     for mode in suite.modes:
         sp = EN.with_mode(spec, mode) if mode != 'async' else spec
-        for plan in case_plans(sp, suite, fam):
+        for plan in case_plans(sp, suite, fam)[chunk[0]::chunk[1]]:
             base = X.Case(sp, [plan], collab=dict(suite.collab), fam=fam)
             cases = [base]
             if suite.plans in ('cancel', 'cancel1'):
@@ -225,7 +235,9 @@ def run(prop: str, tier: str, seed: int) -> dict:
                     continue
                 if NEED_KIND.get(prop) and NEED_KIND[prop] not in S.kinds_used(spec):
                     continue
-                items.append((prop, tier, si, fam, spec))
+                nch = 6 if fam == 'oneofx' else 1
+                for c in range(nch):
+                    items.append((prop, tier, si, fam, spec, (c, nch)))
                 progs.add(S.spec_hash(spec))
     items = RU.shuffled(items, seed)
     tot = dict(cases=0, executions=0, transitions=0, states=0, capped=0, outcomes=0, cpu=0.0)
@@ -234,6 +246,7 @@ def run(prop: str, tier: str, seed: int) -> dict:
     internal: t.List[str] = []
     samples: t.List[dict] = []
     for (p, ti, si, fam, spec), res in zip_results(items, work):
+        si = si if si is not None else 0
         if isinstance(res, tuple) and res and res[0] == '__error__':
             internal.append(f'worker crashed: {res[1]}\n{res[2]}')
             continue
@@ -282,7 +295,7 @@ class _Tagged:
         self.fn = fn
 
     def __call__(self, it: tuple):
-        return (it[:4] + (None,), self.fn(it))
+        return (tuple(it[:4]) + (None,), self.fn(it))
 
 
 ASSUMPTIONS = [
